@@ -252,6 +252,9 @@ pub fn theory_formulas() -> Vec<&'static str> {
         "forall X Y (q(X) and q(Y) and X != Y -> p(Y, X))",
         "forall Y X (s and q(X) -> p(Y, X))",
         "forall Y X (q(Y) and not q(X) -> p(X, Y))",
+        // a head variable repeated in NON-adjacent positions
+        "forall X Y (q(X) and q(Y) -> p(X, Y, X))",
+        "forall X Y (p(X, Y, X) <- q(X) and s)",
     ]
 }
 
@@ -371,7 +374,7 @@ pub fn run(run: &Run) {
     let total = all.len();
     run.set_extra("programs_generated", json!(total));
     run.set_extra("windows", json!([W0, W0 + 3]));
-    run.set_rule("part 1: every program of 1-3 rules over a 43-rule alphabet (heads basic/choice/constraint over p/1,p/2,q/1,r/0, bodies with in/1, negation, double negation, comparisons, intervals, arithmetic) that the real is_tight() accepts x every subset of non-head predicates as inputs x all classical interpretations: completion(tau*(P), inputs) vs stable models with inputs from the reference semantics (HT truth table, minimality by enumeration). part 2: every theory of 1-2 formulas over 33 implication shapes (incl. heads that permute the same variables): listed non-completability reasons => completion refuses; accepted theories vs supported-model semantics. non-trivial = distinct stable-model table neither empty nor full");
+    run.set_rule("part 1: every program of 1-3 rules over a 43-rule alphabet (heads basic/choice/constraint over p/1,p/2,q/1,r/0, bodies with in/1, negation, double negation, comparisons, intervals, arithmetic) that the real is_tight() accepts x every subset of non-head predicates as inputs x all classical interpretations: completion(tau*(P), inputs) vs stable models with inputs from the reference semantics (HT truth table, minimality by enumeration). part 2: every theory of 1-2 formulas over 35 implication shapes (incl. heads that permute the same variables and heads repeating a variable in non-adjacent positions): listed non-completability reasons => completion refuses; accepted theories vs supported-model semantics. non-trivial = distinct stable-model table neither empty nor full");
     run.assume("finite slice as in C01; stable models are computed among interpretations over U with inputs fixed to the interpretation's own input facts");
     let limit = if quick { 8 } else { 9 };
     let idx: Vec<usize> = (0..total).collect();
